@@ -165,10 +165,15 @@ pub fn gen_ops(tier: Tier) -> Vec<SolveOp> {
 
 pub fn run(tier: Tier) -> RunOutcome {
     let mut out = RunOutcome::default();
-    let opts = match tier {
+    let mut opts = match tier {
         Tier::Quick => GenOpts::quick(),
         Tier::Thorough => GenOpts::thorough(),
     };
+    // boundary shapes: the runs exist anyway, so the no-panic / terminal-status
+    // invariants are asserted on them too
+    opts.degenerate = true;
+    opts.allow_soc1 = true;
+    opts.max_scale_pow = 8;
     let prob = with_sim(|s| gen_problem(&mut s.cs, &opts));
     let verbose = flag("verbose");
     let settings = with_sim(|s| gen_settings(&mut s.cs, verbose));
@@ -188,11 +193,23 @@ pub fn run(tier: Tier) -> RunOutcome {
     // documented-panic clause: inconsistent dimensions are rejected at construction
     if prob.m > 0 && chance("baddims", 1, 16) {
         let mut bad = prob.clone();
-        match choose("badwhich", 3) {
+        match choose("badwhich", 5) {
             0 => bad.b.push(1.0),
             1 => bad.q.push(1.0),
-            _ => {
+            2 => {
                 bad.cones.push(ConeSpec::Nonneg(1));
+            }
+            3 => {
+                // P with one column more than q has entries (not square w.r.t. n)
+                bad.p_user.n += 1;
+                let last = *bad.p_user.colptr.last().unwrap();
+                bad.p_user.colptr.push(last);
+            }
+            _ => {
+                // A with one column more
+                bad.a.n += 1;
+                let last = *bad.a.colptr.last().unwrap();
+                bad.a.colptr.push(last);
             }
         }
         api(format!("NewBadDims {}", bad.describe()));
